@@ -11,7 +11,8 @@
 (*   paused(on)                     the operator is (un)paused             *)
 (*   opexit                         the operator process is exiting        *)
 (*   quiet                          the world ran to rest                  *)
-(* conf[h] = [backoff, timeout (0 = none), kind ("daemon"|"timer")]        *)
+(* conf[h] = [backoff, timeout (0 = none), kind ("daemon"|"timer"),        *)
+(*            sync (a thread: can be asked to stop, cannot be cancelled)]  *)
 (* The laws are the clauses of the statement; a violated law is reported   *)
 (* with a family label when it is one of the known findings (F5, F18).     *)
 (***************************************************************************)
@@ -106,7 +107,7 @@ Step ==
                \* was asked to stop, has not left and is still wanted gone is cancelled
                \* once the backoff has passed (the world is at rest here, long after it)
                ELSE IF obj.exists /\ (obj.deleting \/ ~obj.match) /\ ~exiting
-                       /\ (\E h \in Hs : Conf[h].kind = "daemon" /\ Conf[h].timeout > 0 /\ alive[h] > 0 /\ flagged[h] /\ ~cancelled[h] /\ ~rematch[h]
+                       /\ (\E h \in Hs : Conf[h].kind = "daemon" /\ Conf[h].timeout > 0 /\ ~Conf[h].sync /\ alive[h] > 0 /\ flagged[h] /\ ~cancelled[h] /\ ~rematch[h]
                                            /\ E.t > when[h] + Conf[h].backoff + 2)
                     THEN Bad("never_cancelled_after_the_backoff")
                ELSE Good
